@@ -9,7 +9,7 @@ from mc.runner import Stats
 ID = "C28"
 LEVEL = "exploration"
 TECHNIQUE = "exhaustive input enumeration with XML and HTML re-parsing"
-RULE = ("trees from 24 shapes (text / attribute value / comment / CDATA in and next to elements, void and transparent "
+RULE = ("trees from 28 shapes + 7 nested-slot shapes (the same slot name filled with different values on an outer and an inner tag, referenced as child and as attribute value inside the inner tag and again after it closed; three levels; siblings; inner tag filling another name; slot defaults - the parsed text must be the innermost enclosing fill) (text / attribute value / comment / CDATA in and next to elements, void and transparent "
         "tags, two attributes, depth 2, adjacent comment-text-CDATA pairs) x content strings = every concatenation of "
         "<= 2 tokens (quick; <= 3 for comment and CDATA payloads in thorough) from {< > & \" ' - -- -> --> !> --!> ] ]] ]]> ]> "
         "<!-- <![CDATA[ &amp; &lt; a space </div> <b> newline e-acute VT} x carriers (str, bytes, slot, slot default, fired "
@@ -29,7 +29,7 @@ ASSUMPTIONS = [
     "elements div / span / br (no raw-text elements, no tree-construction fix-ups)",
     "html.parser is not consulted for comments: CPython 3.12.1 closes comments at '--' S* '>' (pre-HTML5 behaviour)",
 ]
-MIN = {"quick": {"evaluations": 45000, "nontrivial": 43000, "outcomes": 4},
+MIN = {"quick": {"evaluations": 60000, "nontrivial": 57000, "outcomes": 4},
        "thorough": {"evaluations": 280000, "nontrivial": 275000, "outcomes": 4}}
 
 TOKENS = ["<", ">", "&", '"', "'", "-", "--", "->", "-->", "!>", "--!>", "]", "]]", "]]>", "]>", "<!--", "<![CDATA[",
@@ -101,9 +101,13 @@ def shapes_two():
     ]
 
 
-def model(spec_nodes):
-    """Expected event list of a spec forest."""
+def model(spec_nodes, leak=False):
+    """Expected event list of a spec forest.  Slot references resolve to the innermost enclosing fill
+    (the documented meaning of Tag.fillSlots: "during the rendering of children of this node").
+    leak=True computes, for signature refinement only, what a flattener gives that never drops the fill frame of a
+    tag once that tag is closed."""
     ev = []
+    leaked = []
 
     def text(s):
         if not s:
@@ -113,10 +117,18 @@ def model(spec_nodes):
         else:
             ev.append(("text", s))
 
-    def walk(n):
+    def lookup(name, default, env):
+        for frame in reversed(env):
+            if name in frame:
+                return frame[name]
+        return default
+
+    def walk(n, env):
         k = n[0]
         if k == "text":
             text(n[1])
+        elif k == "slotref":
+            text(lookup(n[1], n[2], env))
         elif k == "charref":
             text(chr(n[1]))
         elif k == "comment":
@@ -126,15 +138,54 @@ def model(spec_nodes):
         elif k == "tag":
             if n[1] == "":
                 for c in n[3]:
-                    walk(c)
+                    walk(c, env)
                 return
             ev.append(("start", n[1], tuple(sorted((a, s) for a, s, _c in n[2]))))
             for c in n[3]:
-                walk(c)
+                walk(c, env)
             ev.append(("end", n[1]))
+        elif k == "ftag":
+            if leak:
+                leaked.append(dict((fk, fv) for fk, fv, _kind in n[2]))
+                env = leaked
+            else:
+                env = env + [dict((fk, fv) for fk, fv, _kind in n[2])]
+            if n[1] != "":
+                ev.append(("start", n[1], tuple(sorted((a, lookup(sn, d, env)) for a, sn, d in n[3]))))
+            for c in n[4]:
+                walk(c, env)
+            if n[1] != "":
+                ev.append(("end", n[1]))
     for n in spec_nodes:
-        walk(n)
+        walk(n, leaked if leak else [])
     return ev
+
+
+def shapes_slots():
+    """Same slot name filled at several nesting levels.  f(a, b, c) -> spec list.
+    ftag = (kind, tag name, fills [(slot, value, carrier)], attributes [(attr, slot, default)], children)."""
+    R = lambda name="x", default=None: ("slotref", name, default)
+    return {
+        # outer value before, inner value as attribute and child of the inner tag, outer value again after it closed
+        "nested": lambda a, b, c: [("ftag", "div", [("x", a, "str")], [("t", "x", None)], [
+            R(), ("ftag", "span", [("x", b, "str")], [("t", "x", None)], [R()]), R()])],
+        "nested-bytes-deferred": lambda a, b, c: [("ftag", "div", [("x", a, "deferred")], [], [
+            R(), ("ftag", "span", [("x", b, "bytes")], [("t", "x", None), ("u", "x", "dflt")], [R(default="dflt")]), R()])],
+        "inner-transparent": lambda a, b, c: [("ftag", "div", [("x", a, "str")], [], [
+            ("ftag", "", [("x", b, "str")], [], [R(), ("tag", "br", [], [])]), R()])],
+        "three-levels": lambda a, b, c: [("ftag", "div", [("x", a, "str")], [], [
+            ("ftag", "span", [("x", b, "str")], [("t", "x", None)], [
+                ("ftag", "span", [("x", c, "str")], [("t", "x", None)], [R()]), R()]), R()])],
+        "siblings": lambda a, b, c: [("ftag", "div", [("x", a, "str")], [], [
+            ("ftag", "span", [("x", b, "str")], [], [R()]), ("ftag", "span", [("x", c, "str")], [("t", "x", None)], []), R()])],
+        # the inner tag fills another name: the outer fill stays visible inside it, the default is used outside
+        "inner-other-name": lambda a, b, c: [("ftag", "div", [("x", a, "str")], [], [
+            ("ftag", "span", [("y", b, "str")], [("t", "x", None), ("u", "y", None)], [R("x"), R("y")]),
+            R("x"), R("y", c)])],
+        # the inner tag has an (empty) fill frame of its own
+        "inner-default-vs-outer": lambda a, b, c: [("ftag", "div", [("x", a, "str")], [], [
+            ("ftag", "span", [("y", b, "str")], [], [R("x", c)]), R("x", c)])],
+    }
 
 
 def merge_cdata(ev):
@@ -209,6 +260,17 @@ class Build:
             return self.carry(n[1], n[2], False)
         if k == "charref":
             return CharRef(n[1])
+        if k == "slotref":
+            from twisted.web.template import slot
+            return slot(n[1]) if n[2] is None else slot(n[1], default=n[2])
+        if k == "ftag":
+            from twisted.web.template import slot
+            t = Tag(n[1])
+            for a, sn, d in n[3]:
+                t.attributes[a] = slot(sn) if d is None else slot(sn, default=d)
+            t.children.extend(self.node(c) for c in n[4])
+            t.fillSlots(**dict((fk, self.carry(fv, kind, False)) for fk, fv, kind in n[2]))
+            return t
         if k == "comment":
             return Comment(n[1] if n[2] == "str" else n[1].encode("utf-8"))
         if k == "cdata":
@@ -613,11 +675,15 @@ def parse_htmlparser(doc):
 
 # --------------------------------------------------------------------------- oracle
 
+def _kids(n):
+    return n[3] if n[0] == "tag" else n[4] if n[0] == "ftag" else ()
+
+
 def _has(spec_nodes, kind):
     def w(n):
         if n[0] == kind:
             return True
-        return n[0] == "tag" and any(w(c) for c in n[3])
+        return any(w(c) for c in _kids(n))
     return any(w(n) for n in spec_nodes)
 
 
@@ -627,9 +693,16 @@ def _all_strings(spec_nodes):
     def w(n):
         if n[0] in ("text", "comment", "cdata"):
             out.append(n[1])
+        elif n[0] == "slotref":
+            out.append(n[2] or "")
         elif n[0] == "tag":
             out.extend(s for _a, s, _c in n[2])
             for c in n[3]:
+                w(c)
+        elif n[0] == "ftag":
+            out.extend(fv for _k, fv, _c in n[2])
+            out.extend(d or "" for _a, _s, d in n[3])
+            for c in n[4]:
                 w(c)
     for n in spec_nodes:
         w(n)
@@ -647,6 +720,8 @@ def _first_diff(want, got):
 def _where(spec_nodes):
     """Which node kind holds a markup-significant string (for the signature): the first in comment > cdata > attr > text."""
     kinds = set()
+    if _has(spec_nodes, "ftag"):
+        return "nested-slot"
 
     def w(n):
         if n[0] in ("comment", "cdata", "text"):
@@ -695,12 +770,17 @@ def judge(spec_nodes, doc, err):
         return "flatten-error", [("flatten:error:" + err.split(":")[0], {"error": err, "tree": repr(spec_nodes)[:300]})]
     want = model(spec_nodes)
     where = _where(spec_nodes)
+    want_leak = model(spec_nodes, leak=True) if where == "nested-slot" else None
     strs = _all_strings(spec_nodes)
     bad = []
     label = "ok:" + where
 
     def v(parser, kind, extra):
         sig = "flatten:%s:%s:%s" % (parser, where, kind)
+        if kind == "fill-leaks-past-closing-tag":      # a flattening fault, the same under every parser: one signature
+            sig = "flatten:nested-slot:fill-leaks-past-closing-tag"
+            if any(b_[0] == sig for b_ in bad):
+                return
         bad.append((sig, dict({"tree": repr(spec_nodes)[:300], "output": doc[:300]}, **extra)))
 
     # 1. XML
@@ -713,15 +793,21 @@ def judge(spec_nodes, doc, err):
                 kind += ":" + _comment_trigger(spec_nodes, False)
             v("xml", kind, {"expat": got[1]})
         else:
-            wx = []
-            for e in merge_cdata(want):
-                if e[0] == "start":
-                    e = ("start", e[1], tuple(sorted((a, re.sub("[\t\n]", " ", s)) for a, s in e[2])))
-                wx.append(e)
+            def xml_view(evs):
+                wx = []
+                for e in merge_cdata(evs):
+                    if e[0] == "start":
+                        e = ("start", e[1], tuple(sorted((a, re.sub("[\t\n]", " ", s)) for a, s in e[2])))
+                    wx.append(e)
+                return wx
+            wx = xml_view(want)
             if got != wx:
                 label = "xml-structure-differs"
                 k, a, b = _first_diff(wx, got)
-                v("xml", "structure-differs", {"event": k, "expected": repr(a), "parsed": repr(b)})
+                kind = "structure-differs"
+                if want_leak is not None and got == xml_view(want_leak):
+                    kind = "fill-leaks-past-closing-tag"
+                v("xml", kind, {"event": k, "expected": repr(a), "parsed": repr(b)})
     # 2. / 3. HTML
     if not _has(spec_nodes, "cdata"):
         wh = merge_cdata(want)
@@ -732,13 +818,18 @@ def judge(spec_nodes, doc, err):
             kind = "structure-differs"
             if where == "comment":
                 kind += ":" + _comment_trigger(spec_nodes, True)
+            if want_leak is not None and got == merge_cdata(want_leak):
+                kind = "fill-leaks-past-closing-tag"
             v("html5", kind, {"event": k, "expected": repr(a), "parsed": repr(b)})
         if not _has(spec_nodes, "comment"):
             got = parse_htmlparser(doc)
             if got != wh:
                 label = "htmlparser-structure-differs"
                 k, a, b = _first_diff(wh, got)
-                v("htmlparser", "structure-differs", {"event": k, "expected": repr(a), "parsed": repr(b)})
+                kind = "structure-differs"
+                if want_leak is not None and got == merge_cdata(want_leak):
+                    kind = "fill-leaks-past-closing-tag"
+                v("htmlparser", kind, {"event": k, "expected": repr(a), "parsed": repr(b)})
     return label, bad
 
 
@@ -767,6 +858,12 @@ def cases(tier):
         for a in first:
             for b in s1:
                 yield ("two", si, a, b)
+    thirds = ["c", "<", '"', "-->"]
+    for name in shapes_slots():
+        for ci in range(len(thirds)):
+            for a in s1:
+                for b in s1:
+                    yield ("slots", "%s:%d" % (name, ci), a, b)
     for n in (60, 38, 34, 233):
         yield ("charref", n, "", "")
 
@@ -777,6 +874,9 @@ def build_case(case):
         return shapes_one()[case[1]][2](case[2], case[3])
     if kind == "two":
         return shapes_two()[case[1]][1](case[2], case[3])
+    if kind == "slots":
+        name, ci = case[1].rsplit(":", 1)
+        return shapes_slots()[name](case[2], case[3], ["c", "<", '"', "-->"][int(ci)])
     return [("tag", "div", [("t", "x", "str")], [("charref", case[1]), ("text", "<", "str")])]
 
 
@@ -802,7 +902,7 @@ def run_shard(shard, tier, seed):
         label, bad = run_case(case)
         st.evaluations += 1
         st.outcome(label)
-        if set(case[2] + str(case[3])) & SIGNIFICANT:
+        if set(case[2] + str(case[3])) & SIGNIFICANT or (case[0] == "slots" and case[2] != case[3]):
             st.nt(case)
         if st.evaluations % 1201 == 11:
             st.sample({"case": list(case), "outcome": label}, 2)
